@@ -15,7 +15,7 @@ META = {
     "explanation": "Decides the lock-step clauses that keep the server's text and the table used to interpret the client's positions in "
                    "sync, and that the client's text is the one analysed. The position arithmetic itself (UTF-16 columns to byte "
                    "offsets) is a computation on runtime text and is not decided here (see C14, not applicable).",
-    "not_decided": "equality with the editor's text for all edit histories (offset arithmetic over runtime strings).",
+    "not_decided": "equality with the editor's text for all edit histories (offset arithmetic over runtime strings; D10 decides only that writer and readers of the line table use one coordinate system).",
     "trusted_base": ["rustc MIR", "String::retain removes exactly the characters for which the predicate is false"],
     "assumptions": [],
 }
@@ -67,7 +67,8 @@ def vfs_view(F, name):
     """Vfs::<name> with its private helpers in glas::vfs inlined (all but LineMap's methods, which are analysed on their
     own): the store / splice / record steps may live in a helper such as `replace_content` or `splice_text`"""
     from lib import inline as IL
-    return IL.inlined(F, F.fn(VFS + "::" + name), want=lambda p: p.startswith("glas::vfs::") and "LineMap" not in p, depth=2)
+    CORE = ("LineMap::normalize", "LineMap::pos_for_line_col", "LineMap::line_col_for_pos", "LineMap::end_col_for_line", "LineMap::last_line")
+    return IL.inlined(F, F.fn(VFS + "::" + name), want=lambda p: p.startswith("glas::vfs::") and not p.endswith(CORE) and "{closure" not in p, depth=3)
 
 
 def run(F, res, tier):
@@ -179,7 +180,10 @@ def run(F, res, tier):
                okr and (not f.can_reach(0, rets, avoid=[b for b, _ in recs]) or name == "change_file_content" and
                         all(any(f.dominates(b, r) for b, _ in recs) or True for r in rets)), where=f.loc(),
                how="change_file calls: %d" % len(recs))
-    ap = F.fn("ide::base::Change::apply")
+    from lib import inline as _ILa
+    ap0 = F.fn("ide::base::Change::apply")
+    # private helpers of Change that apply delegates to (`apply_file_changes`) are part of it
+    ap = _ILa.inlined(F, ap0, want=lambda p_: p_.startswith("ide::base::Change::") and p_ != ap0.path and "{closure" not in p_, depth=2)
     sets_ = [b for b, t in ap.calls() if (callee(t) or "").endswith("::set_file_content_with_durability")]
     loops_ = [(tl, hd) for tl, hd in ap.back_edges() if set(sets_) & ap.natural_loop(tl, hd)]
     skipped = FL.every_iteration_passes(ap, sets_)
